@@ -113,6 +113,8 @@ func families() []family {
 	for _, ep := range []string{"characteristics-put", "characteristics-get", "accessories", "resource", "pairings"} {
 		fs = append(fs, family{plaintextStates, ep, "unverified-request", 3, 1})
 	}
+	// a reconnect from the same address and port while the server still holds the older connection
+	fs = append(fs, family{[]string{"pv0", "ps0", "verified"}, "pair-verify", "reuse-port", 2, 0})
 	// HTTP level
 	for _, ep := range []string{"characteristics-put", "accessories", "pairings", "resource", "pair-setup", "pair-verify", "identify"} {
 		fs = append(fs, family{[]string{"verified"}, ep, "unknown-http-method", 5, 1})
